@@ -62,6 +62,21 @@ def reloaded (f : LogFile) (es : List Rec) (fl pre sp : Nat) : LogFile :=
            msgCount := es.length, lastTerm := pre, curCount := es.length % f.interval,
            splitOff := max sp f.startIndex, pos := offsetOf es es.length, needSeek := false }
 
+/-- on a file whose index entries are complete the repair has nothing to do -/
+theorem repairIndex_noop (fuel : Nat) (f : LogFile) (es : List Rec) (h : WF f es) : repairIndex fuel f = f := by
+  cases fuel with
+  | zero => rfl
+  | succ n =>
+    unfold repairIndex
+    have hlt : f.msgCount - ((lastIdx f).logIndex - f.startIndex) < f.interval := by
+      rw [lastIdx_wf f es h, h.msg]
+      unfold entry; simp only
+      have := Nat.mod_lt es.length h.ivl
+      have := Nat.div_add_mod es.length f.interval
+      have e : es.length / f.interval * f.interval = f.interval * (es.length / f.interval) := Nat.mul_comm _ _
+      omega
+    simp [hlt]
+
 theorem initTerm_wf (f : LogFile) (es : List Rec) (t : Nat) (h : WF f es) : WF (initTerm f t) es := by
   unfold initTerm
   split
@@ -76,6 +91,7 @@ theorem initTerm_wf (f : LogFile) (es : List Rec) (t : Nat) (h : WF f es) : WF (
 whatever cursors the previous process had and whatever split-off the catalogue passes -/
 theorem load_eq (f : LogFile) (es : List Rec) (h : WF f es) (fl pre sp : Nat) :
     load f.bytes fl f.startIndex pre sp = initTerm (reloaded f es fl pre sp) pre ∧ WF (reloaded f es fl pre sp) es := by
+  -- (the repair of missing index entries is a no-op on a well-formed file: `repairIndex_noop`)
   obtain ⟨z1, z2, hb, hz1, hz2, hsum⟩ := h.bytes
   have hH := header_length f.hdrTerm f.firstIndex f.interval f.areaEnd
   have hhead : (f.bytes ++ List.replicate (dataStart - f.bytes.length) 0).take dataStart =
@@ -132,6 +148,9 @@ theorem load_eq (f : LogFile) (es : List Rec) (h : WF f es) (fl pre sp : Nat) :
   refine ⟨?_, hf0⟩
   unfold load
   simp only [hhead, hf1, hf2, hf3, hf4, hdrop, hri, hlast, hmv, hne, if_false]
+  have hrep := repairIndex_noop (es.length + 1) (reloaded f es fl pre sp) es hf0
+  unfold reloaded at hrep
+  rw [hrep]
   rfl
 
 theorem load_wf (f : LogFile) (es : List Rec) (h : WF f es) (fl pre sp : Nat) :
